@@ -306,6 +306,9 @@ def report_failure(ctx, fz, f, found):
 
 def replay(ctx, path, known):
     text = open(path).read()
+    if "\nvg-replay " in text:                     # the uninitialised-memory class: re-run under valgrind (vlib/vgcheck.py)
+        from .. import vgcheck
+        return vgcheck.replay(ctx, path)
     if "--- script" not in text:
         print(text)
         ctx.report(path, no_input=True)
@@ -440,6 +443,14 @@ def run(ctx):
     if len(seeds) < 20:
         ctx.violation("seeds", "only %d of %d writable formats produced a seed file; the harness or the library's writers are broken on this tree" % (len(seeds), len(fmts)), no_input=True)
         raise Violation()
+
+    from .. import vgcheck                         # class "uninitialised memory": truncated files of every container under valgrind memcheck
+    try:
+        fork = bytes.fromhex(ctx.run_model(["sd2"], "rsrc size=2 sr=44100 ch=2 name=78\n").strip())
+    except Exception:
+        fork = None
+    if vgcheck.run(ctx, seeds, sd2_fork=fork):
+        found_input = True
 
     fz = Fuzz(ctx, seeds, known)
     total = QUICK_FILES if ctx.tier == "quick" else THOROUGH_FILES
